@@ -1,4 +1,5 @@
 import RedisEmu.Exec
+import RedisEmu.Proofs.GoArith
 import RedisEmu.Proofs.AList
 import RedisEmu.Props.C02
 import Mathlib.Tactic.SplitIfs
@@ -213,5 +214,20 @@ theorem hdelAll_lookup (fs : List Bytes) : ∀ (h : List (Bytes × Bytes)) (n : 
             simp [hg]
           · simp [hk]
         · right; exact h1
+
+/-! ### the overflow test of HINCRBY as the Go source has it now (`GoArith.lean`, regenerated) -/
+
+/-- The condition under which `fieldAddInt` (HINCRBY) answers "overflow", translated from the Go source:
+    for every stored int64 and every increment, of either sign, it holds exactly when the true sum leaves
+    the int64 range. -/
+theorem hincrby_guard_as_coded (v d : BitVec 64) :
+    Go.fieldAddIntOverflowGuard v d = true ↔
+      (v.toInt + d.toInt < -9223372036854775808 ∨ 9223372036854775807 < v.toInt + d.toInt) := by
+  have h1 := BitVec.toInt_lt (x := v); have h2 := BitVec.le_toInt (x := v)
+  have h3 := BitVec.toInt_lt (x := d); have h4 := BitVec.le_toInt (x := d)
+  rw [go_fieldAddIntOverflowGuard]
+  unfold goAddOverflow wrap64 twoP63 twoP64
+  simp at *
+  by_cases hd : 0 < d.toInt <;> simp [hd] <;> omega
 
 end RedisEmu
